@@ -7,7 +7,7 @@ Three layers, all on the same generated inputs:
   * TIE: the PyCifRW block of W1 (after `CifFile.ReadCif`) against the model's `saveCif`, the real load result
     against the model's `loadCif` on that block, `re.sub`/`float` against `stripSu`/`tofloat`.
 
-Six input classes on which the code under test violates C15 are KNOWN FINDINGS (known_findings.json, ids C15-<tag>).
+Seven input classes on which the code under test (or the installed CIF library) violates C15 are KNOWN FINDINGS (known_findings.json, ids C15-<tag>).
 They are reproduced on every run (the minimal replays of corpus/C15 plus small generated streams) and every such
 failure carries exactly the tag of the defect that causes it; any other violation of C15 is reported untagged.
 """
@@ -29,7 +29,31 @@ T_LEN = "cell-length-last-digit"                    # re-writing changes the las
 T_ZERO = "negative-zero-coordinate"                 # re-writing turns a coordinate 0.0000 into -0.0000 (or back)
 T_ROT = "cartesian-output-nonstandard-cell-orientation"   # Cartesian output of a cell not in standard orientation
 T_CASE = "extra-label-case-lowered"                 # re-writing lower-cases upper-case letters of extra data names
-KNOWN_TAGS = [T_TORS, T_IMPX, T_LEN, T_ZERO, T_ROT, T_CASE]
+T_RES = "reserved-word-extra-value"                  # PyCifRW writes loop_ / stop_… / a bare CR unquoted: unreadable file
+KNOWN_TAGS = [T_TORS, T_IMPX, T_LEN, T_ZERO, T_ROT, T_CASE, T_RES]
+RESERVED_VALUE = re.compile(r"(?i)\Aloop_\Z|\Astop_|\r(?!\n)")
+
+
+def reserved_value(v):
+    """exactly the extra-column values the installed PyCifRW writes without quoting although they need it: the word
+    `loop_`, anything starting with `stop_` (any case), anything with a carriage return not followed by a newline"""
+    return isinstance(v, str) and RESERVED_VALUE.search(v) is not None
+
+
+TAME_VALUE = re.compile(r"[A-Za-z0-9.+\-()?' ]+\Z")
+
+
+def ase_can_parse_values(aj):
+    """ASE's own CIF tokenizer is only the independent witness for cell and positions; it mis-reads or refuses loops with
+    values that need double quotes, text fields, folding or special first characters.  Files with such values are not
+    shown to it (counted `ase:not-shown-exotic-values`); every other file is, and its refusal is a failure."""
+    vals = [v for r in aj["atoms"] for v in r["x"]] + [v for k in KINDS for t in aj["terms"][k] for v in t["x"]]
+    return all(TAME_VALUE.match(v) and not v.startswith("'") and len(v) < 60 for v in vals)
+
+
+def reserved_values_in(aj):
+    return [v for r in aj["atoms"] for v in r["x"] if reserved_value(v)] + \
+        [v for k in KINDS for t in aj["terms"][k] for v in t["x"] if reserved_value(v)]
 CORPUS = os.path.join(core.VERIF, "corpus", "C15")
 
 
@@ -39,10 +63,12 @@ RULE = ("structures: 1-8 atoms on distinct sites of an 8x8x8 fractional grid (+ 
         "output only), every term kind, extra columns on any subset of {atom, bond, angle, dihedral}, duplicate elements "
         "across types, dyadic and generic charges, fractional and Cartesian output; hand-written CIF texts with s.u. "
         "parentheses, Cartesian tags, both tag families, P1 / non-P1 / missing H-M items; random strings for the s.u. "
-        "stripper; HISTORIES: one live object saved 2-5 times with its cell changed between saves (in-place row assignment, "
+        "stripper (hand-written files also carry a charge column with s.u.); atom indices of terms also in python's negative "
+        "spelling; extra values from everything PyCifRW must quote or fold; left-handed and negative-diagonal cells (fractional "
+        "output); charges up to 1e300 / down to 1e-300 / float32-valued, and nan, inf, -0.0 (oracle only); HISTORIES: one live object saved 2-5 times with its cell changed between saves (in-place row assignment, "
         "scalar scaling, element assignment, row increment, or replacement; positions kept fractional or Cartesian), every "
         "save judged by the same round-trip oracle against the object's current cell/positions; hand-written numbers also in exponent notation (e/E, signs, with s.u.); large structures with >= 1001 atoms "
-        "of a two-letter element (thorough: 10050 of a one-letter element) and terms on the highest-numbered atoms; plus the corpus replays and small streams of the six known-finding classes (impropers with extra dihedral "
+        "of a two-letter element (thorough: 10050 of a one-letter element) and terms on the highest-numbered atoms; plus the corpus replays and small streams of the seven known-finding classes (extra values `loop_` / `stop_…` / bare CR; impropers with extra dihedral "
         "columns, extra improper columns, inexact cells re-written, boundary atoms in inexact cells, Cartesian output of a "
         "re-oriented cell, upper-case extra data names). OUT OF DOMAIN, not generated: element names ending in a digit (no "
         "such key in ATOMIC_MASSES, such a structure cannot be re-read at all; theorem label_collision shows what would "
@@ -67,6 +93,13 @@ def gen_cell(rng, kind):
         d = [F(rng.choice([8, 16])) for _ in range(3)]
         return [[d[0], 0, 0], [0, d[1], 0], [0, 0, d[2]]]
     a, b, c = [Fraction(rng.randint(6 * 8, 14 * 8), 8) for _ in range(3)]
+    if kind == "negdiag":                              # axis-aligned with a negative entry (left- or right-handed)
+        sg = rng.choice([(-1, 1, 1), (1, -1, 1), (1, 1, -1), (-1, -1, 1), (-1, -1, -1)])
+        return [[sg[0] * a, 0, 0], [0, sg[1] * b, 0], [0, 0, sg[2] * c]]
+    if kind == "lh":                                   # left-handed triclinic: a lower-triangular cell with its last row negated
+        m = gen_cell(rng, "tri")
+        m[2] = [-x for x in m[2]]
+        return m
     if kind == "ortho":
         return [[a, 0, 0], [0, b, 0], [0, 0, c]]
     if kind in ("tri+", "tri-", "tri"):
@@ -125,7 +158,16 @@ def gen_fracs(rng, n, placement):
     return out
 
 
-XVALS = ["1.5", "0.25", "a b", "x'y", "tag", "7", "q-r", "1.00(2)", "?x"]
+XVALS_TAME = ["1.5", "0.25", "a b", "x'y", "tag", "7", "q-r", "1.00(2)", "?x"]
+XVALS = XVALS_TAME + [
+         # widened after the guard probe: everything PyCifRW has to quote or fold, and the two CIF placeholders
+         "", " a ", "a'b\"c", ";x", "#x", "$x", "_tag", "[1,2]", "data_x", "save_", "global_", "l1\nl2", "l1\n;l2", "a\tb", "?", ".",
+         "loop_1", "xloop_", "word " * 24]
+
+
+def xval(rng):
+    """two thirds from the tame alphabet (those files are also shown to ASE), one third from the full one"""
+    return rng.choice(XVALS_TAME) if rng.random() < 0.66 else rng.choice(XVALS)
 
 
 def gen_structure(rng, cellkind=None, placement="mixed", n=None, kinds=None, extras=None, improper_extras=False,
@@ -167,9 +209,10 @@ def gen_structure(rng, cellkind=None, placement="mixed", n=None, kinds=None, ext
         if charges == "dyadic" or (charges == "mixed" and rng.random() < 0.5):
             qv = Fraction(i + 1, 16) * rng.choice([1, -1])
         else:
-            qv = F(rng.choice([rng.uniform(-2, 2), round(rng.uniform(-2, 2), 3), 1e-7 * (i + 1), 0.1 * (i + 1), 0.0]))
+            qv = F(rng.choice([rng.uniform(-2, 2), round(rng.uniform(-2, 2), 3), 1e-7 * (i + 1), 0.1 * (i + 1), 0.0,
+                               1e300 * (i + 1), -1e-300 * (i + 1), 123456789.125, float(__import__("numpy").float32(0.1 * (i + 1)))]))
         atoms.append({"ty": tys[i], "pos": [core.q(F(float(v))) for v in pos[i]], "q": core.q(F(float(qv))), "g": 0,
-                      "x": ["%s%d" % (rng.choice(XVALS), i) if rng.random() < 0.7 else rng.choice(XVALS) for _ in xl_atom]})
+                      "x": ["%s%d" % (xval(rng), i) if rng.random() < 0.7 else xval(rng) for _ in xl_atom]})
     j = {"cell": None if cell is None else [[core.q(v) for v in row] for row in cell], "atoms": atoms,
          "terms": {}, "types": {}, "xlabels": {"atom": xl_atom}}
     for k in KINDS:
@@ -181,8 +224,11 @@ def gen_structure(rng, cellkind=None, placement="mixed", n=None, kinds=None, ext
                 if rng.random() < 0.3:
                     xl.append("_geom_%s_aux" % k)
             for t in range(rng.randint(1, 4)):
-                terms.append({"a": rng.sample(range(n), ar), "ty": rng.randrange(3),
-                              "x": ["%s%d%s" % (k[0], t, rng.choice(["", ".5", " z"])) for _ in xl]})
+                tupl = rng.sample(range(n), ar)
+                if rng.random() < 0.15:                    # python's negative indexing: i - n names the same atom as i
+                    tupl = [i - n if rng.random() < 0.5 else i for i in tupl]
+                terms.append({"a": tupl, "ty": rng.randrange(3),
+                              "x": ["%s%d%s" % (k[0], t, rng.choice(["", ".5", " z"])) if rng.random() < 0.8 else xval(rng) for _ in xl]})
         j["terms"][k] = terms
         j["types"][k] = []
         j["xlabels"][k] = xl
@@ -397,7 +443,10 @@ def oracle_roundtrip(aj, fract, with_ase=True, obj=None):
     info["w1"] = w1
     b, e = attempt(lambda: read(w1))
     if e is not None:
-        return [("load_p1_cif of the written file raised %s: %s" % (type(e).__name__, str(e)[:200]), None)], info
+        rv = reserved_values_in(aj)
+        tag = T_RES if rv and "StarError" in type(e).__name__ else None
+        return [("load_p1_cif of the written file raised %s: %s%s" % (type(e).__name__, str(e)[:200],
+                 " (extra values %r)" % rv[:3] if tag else ""), tag)], info
     bj = core.canon_atoms(b)
     info["b"] = bj
     has_cell = aj["cell"] is not None
@@ -447,7 +496,8 @@ def oracle_roundtrip(aj, fract, with_ase=True, obj=None):
     if q0 != q1:
         bad.append(("charges changed: %s -> %s" % (q0, q1), None))
     # --- terms between the same atoms, torsions = dihedrals followed by impropers
-    tup = lambda j, k: [t["a"] for t in j["terms"][k]]
+    nat = len(aj["atoms"])
+    tup = lambda j, k: [[x % nat for x in t["a"]] for t in j["terms"][k]]      # i and i - n are the same atom
     if tup(bj, "bond") != tup(aj, "bond"):
         bad.append(("bonds changed: %s -> %s" % (tup(aj, "bond"), tup(bj, "bond")), None))
     if tup(bj, "angle") != tup(aj, "angle"):
@@ -456,12 +506,16 @@ def oracle_roundtrip(aj, fract, with_ase=True, obj=None):
         bad.append(("torsions changed: %s -> %s" % (tup(aj, "dihedral") + tup(aj, "improper"), tup(bj, "dihedral") + tup(bj, "improper")), None))
     # --- extra columns (data names are case-insensitive in CIF: PyCifRW hands them back in lower case)
     low = lambda l: [s.lower() for s in l]
-    if low(bj["xlabels"]["atom"]) != low(aj["xlabels"]["atom"]) or [r["x"] for r in bj["atoms"]] != [r["x"] for r in aj["atoms"]]:
-        bad.append(("extra atom columns changed: %s %s -> %s %s" % (aj["xlabels"]["atom"], [r["x"] for r in aj["atoms"]],
-                                                                   bj["xlabels"]["atom"], [r["x"] for r in bj["atoms"]]), None))
+    def cols_same(what, lab0, lab1, rows0, rows1):
+        if low(lab0) == low(lab1) and rows0 == rows1:
+            return
+        # a value of the reserved class may come back altered (known finding); any other change is a different failure
+        masked = low(lab0) == low(lab1) and len(rows0) == len(rows1) and all(
+            len(x) == len(y) and all(u == v or reserved_value(u) for u, v in zip(x, y)) for x, y in zip(rows0, rows1))
+        bad.append(("extra %s columns changed: %s %s -> %s %s" % (what, lab0, str(rows0)[:200], lab1, str(rows1)[:200]), T_RES if masked else None))
+    cols_same("atom", aj["xlabels"]["atom"], bj["xlabels"]["atom"], [r["x"] for r in aj["atoms"]], [r["x"] for r in bj["atoms"]])
     for k in ("bond", "angle"):
-        if low(bj["xlabels"][k]) != low(aj["xlabels"][k]) or [t["x"] for t in bj["terms"][k]] != [t["x"] for t in aj["terms"][k]]:
-            bad.append(("extra %s columns changed" % k, None))
+        cols_same(k, aj["xlabels"][k], bj["xlabels"][k], [t["x"] for t in aj["terms"][k]], [t["x"] for t in bj["terms"][k]])
     # per-torsion columns: the dihedral columns on the dihedral rows, the improper columns on the improper rows
     dlab, ilab, got_lab = low(aj["xlabels"]["dihedral"]), low(aj["xlabels"]["improper"]), low(bj["xlabels"]["dihedral"])
     rows_got = [dict(zip(got_lab, t["x"])) for t in bj["terms"]["dihedral"]]
@@ -623,6 +677,8 @@ def gen_handwritten(rng):
     for t, v in zip(["_cell_length_a", "_cell_length_b", "_cell_length_c", "_cell_angle_alpha", "_cell_angle_beta", "_cell_angle_gamma"], cellstr):
         lines.append("%s  %s" % (t, v))
     lines += ["loop_", "_atom_site_label", "_atom_site_type_symbol"]
+    with_q = rng.random() < 0.6                              # a charge column, numbers with or without s.u.
+    qs = [num(rng.uniform(-2, 2), 3) + su() for _ in range(n)] if with_q else None
     fr, ca = [], []
     for s in sites:
         g = [s % 8, (s // 8) % 8, s // 64]
@@ -634,6 +690,8 @@ def gen_handwritten(rng):
         lines += ["_atom_site_fract_x", "_atom_site_fract_y", "_atom_site_fract_z"]
     if kind in ("cartn", "both", "su-cartn"):
         lines += ["_atom_site_Cartn_x", "_atom_site_Cartn_y", "_atom_site_Cartn_z"]
+    if with_q:
+        lines.append("_atom_site_charge")
     rows_f, rows_c = [], []
     for i in range(n):
         row = [labs[i], els[i]]
@@ -645,6 +703,8 @@ def gen_handwritten(rng):
             vs = [v + (su() if withsu else "") for v in ca[i]]
             row += vs
             rows_c.append(vs)
+        if with_q:
+            row.append(qs[i])
         lines.append("  ".join(row))
     bonds = []
     if n >= 2 and rng.random() < 0.5:
@@ -656,6 +716,7 @@ def gen_handwritten(rng):
     text = "\n".join(lines) + "\n"
     strip = lambda s: float(re.sub(r"\(\d+\)", "", s))
     exp = {"elements": els, "cellpar": [strip(s) for s in cellstr], "bonds": bonds,
+           "charges": [strip(v) for v in qs] if with_q else [0.0] * n,
            "cartn": [[strip(v) for v in r] for r in rows_c] if rows_c else None,
            "fract": [[strip(v) for v in r] for r in rows_f] if rows_f else None}
     return {"op": "handwritten", "kind": kind, "style": style, "text": text, "expect": exp}
@@ -691,6 +752,8 @@ def oracle_handwritten(inp, with_ase=True):
             bad.append(("fractional coordinates with s.u. read wrongly: differ modulo 1 by %.3g" % w, None))
         if float(f1.min()) < -1e-9 or float(f1.max()) > 1 + 1e-9:
             bad.append(("fractional coordinates not wrapped into [0,1]: min %r max %r" % (float(f1.min()), float(f1.max())), None))
+    if "charges" in exp and [fl(r["q"]) for r in bj["atoms"]] != exp["charges"]:
+        bad.append(("charges read %s, file says %s (s.u. removed)" % ([fl(r["q"]) for r in bj["atoms"]], exp["charges"]), None))
     if [t["a"] for t in bj["terms"]["bond"]] != exp["bonds"]:
         bad.append(("bonds read %s, file says %s" % ([t["a"] for t in bj["terms"]["bond"]], exp["bonds"]), None))
     if with_ase and not bad:
@@ -835,19 +898,19 @@ def real_strip(s):
 def default_cases(ctx):
     rng = ctx.rng
     out = []
-    kinds = ["ortho", "ortho2", "tri+", "tri-", "tri", "rot", "none"]
+    kinds = ["ortho", "ortho2", "tri+", "tri-", "tri", "rot", "lh", "negdiag", "none"]
     placements = ["inside", "outside", "boundary", "near", "mixed", "decimal", "grid", "generic"]
     # a systematic sweep first: every cell kind x placement x output mode
     for ck in kinds:
         for pl in placements:
             for fract in (True, False):
-                if ck == "rot" and not fract:
+                if ck in ("rot", "lh", "negdiag") and not fract:
                     continue                      # known-finding stream (T_ROT), see known_cases
                 aj, _ = gen_structure(rng, cellkind=ck, placement=pl)
                 out.append({"op": "roundtrip", "a": aj, "fract": fract, "stream": "default", "cellkind": ck, "placement": pl})
     for s in range(ctx.n(60, 1500)):
         ck = rng.choice(kinds)
-        fract = rng.random() < 0.65 or ck == "rot"
+        fract = rng.random() < 0.65 or ck in ("rot", "lh", "negdiag")
         pl = rng.choice(placements)
         aj, _ = gen_structure(rng, cellkind=ck, placement=pl)
         out.append({"op": "roundtrip", "a": aj, "fract": fract, "stream": "default", "cellkind": ck, "placement": pl})
@@ -897,6 +960,10 @@ def minimal_known_inputs():
     a["xlabels"]["atom"] = ["_atom_site_U_iso_or_equiv"]
     a["atoms"][0]["x"], a["atoms"][1]["x"] = ["0.01"], ["0.02"]
     out[T_CASE] = {"op": "roundtrip", "fract": True, "a": a}
+    a = _mini(box, five[:2], ["C", "O"])
+    a["xlabels"]["atom"] = ["_atom_site_note"]
+    a["atoms"][0]["x"], a["atoms"][1]["x"] = ["loop_"], ["z"]
+    out[T_RES] = {"op": "roundtrip", "fract": True, "a": a}
     for tag, inp in out.items():
         inp.update(stream="known:" + tag, cellkind="fixed", placement="fixed")
     return out
@@ -919,7 +986,7 @@ def corpus_cases():
 
 
 def known_cases(ctx):
-    """small generated streams of the six known-finding classes (beside the corpus replays)"""
+    """small generated streams of the known-finding classes (beside the corpus replays)"""
     rng = ctx.rng
     out = []
     for s in range(ctx.n(3, 20)):
@@ -946,6 +1013,16 @@ def known_cases(ctx):
         aj, ck = gen_structure(rng, cellkind=rng.choice(["ortho", "ortho2", "none"]), n=rng.randint(3, 6), kinds=["bond", "angle"],
                                extras=set(rng.sample(["atom", "bond", "angle"], rng.randint(1, 3))), mixed_case=True, placement="inside")
         out.append({"op": "roundtrip", "a": aj, "fract": True, "stream": "known:" + T_CASE, "cellkind": ck, "placement": "inside"})
+    for s in range(ctx.n(3, 20)):
+        aj, ck = gen_structure(rng, cellkind=rng.choice(["ortho", "ortho2"]), n=rng.randint(3, 6), kinds=["bond"],
+                               extras={"atom", "bond"}, placement="inside")
+        v = rng.choice(["loop_", "LOOP_", "Loop_", "stop_", "STOP_", "stop_x", "a\rb", "\r"])
+        where = rng.choice(["atom"] + (["bond"] if aj["terms"]["bond"] else []))
+        if where == "atom":
+            rng.choice(aj["atoms"])["x"][0] = v
+        else:
+            rng.choice(aj["terms"]["bond"])["x"][0] = v
+        out.append({"op": "roundtrip", "a": aj, "fract": True, "stream": "known:" + T_RES, "cellkind": ck, "placement": "inside"})
     return out
 
 
@@ -1002,6 +1079,35 @@ def large_cases(ctx):
     return out
 
 
+def special_charge_case():
+    """charges that cannot cross the line protocol as rationals (nan, inf) and signed zero: oracle only"""
+    return {"op": "charges", "q": ["nan", "inf", "-inf", "-0.0", "1e-320", "1.7976931348623157e308"]}
+
+
+def oracle_special_charges(inp):
+    import numpy as np
+    from mofun import Atoms
+    q = [float(v) for v in inp["q"]]
+    n = len(q)
+    with core.quiet():
+        a = Atoms(elements=["C"] * n, positions=[[1.0 + i, 2.0, 3.0] for i in range(n)], cell=np.diag([20.0, 11.0, 12.0]), charges=q)
+    w1, e = attempt(lambda: write(a, True))
+    if e is not None:
+        return [("save_p1_cif raised %s on charges %s" % (type(e).__name__, inp["q"]), None)]
+    b, e = attempt(lambda: read(w1))
+    if e is not None:
+        return [("load_p1_cif raised %s on written charges %s" % (type(e).__name__, inp["q"]), None)]
+    same = lambda x, y: (math.isnan(x) and math.isnan(y)) or (x == y and math.copysign(1, x) == math.copysign(1, y))
+    got = [float(v) for v in b.charges]
+    bad = []
+    if len(got) != n or not all(same(x, y) for x, y in zip(q, got)):
+        bad.append(("special charges changed: %s -> %s" % (q, got), None))
+    w2, e = attempt(lambda: write(b, True))
+    if e is not None or w2 != w1:
+        bad.append(("second writing of special charges differs / raised", None))
+    return bad
+
+
 def tiny_negative_case():
     """a fractional coordinate of -1e-20: float `% 1.0` gives the boundary image 1.0 (accepted: closed interval)"""
     text = ("data_x\n_symmetry_space_group_name_H-M  'P 1'\n_cell_length_a 10\n_cell_length_b 11\n_cell_length_c 12\n"
@@ -1022,6 +1128,16 @@ def nontrivial(inp):
 
 # ------------------------------------------------------------------ run
 
+def model_view(aj):
+    """the structure as the model sees it: python's negative atom indices (`atom_labels[i]`, i < 0) written as i % n"""
+    n = len(aj["atoms"])
+    if not any(x < 0 for k in KINDS for t in aj["terms"][k] for x in t["a"]):
+        return aj
+    out = dict(aj)
+    out["terms"] = {k: [dict(t, a=[x % n if -n <= x < 0 else x for x in t["a"]]) for t in aj["terms"][k]] for k in KINDS}
+    return out
+
+
 def judge_state(ctx, inp, aj, fract, ops, pending, oracle_only, obj=None, where=""):
     """one save of one structure state: oracle on the real code, then the two ties.  `obj`: the live object (histories)"""
     ctx.count("out:" + ("fract" if fract else "cartn"))
@@ -1031,8 +1147,13 @@ def judge_state(ctx, inp, aj, fract, ops, pending, oracle_only, obj=None, where=
     for k in KINDS:
         if aj["terms"][k]:
             ctx.count("terms:" + k)
+    if any(x < 0 for k in KINDS for t in aj["terms"][k] for x in t["a"]):
+        ctx.count("terms:negative-index")
     big = len(aj["atoms"]) > LARGE_TIE_LIMIT
-    bad, info = oracle_roundtrip(aj, fract, with_ase=not big, obj=obj)
+    show_ase = (not big) and ase_can_parse_values(aj)
+    if not show_ase and not big:
+        ctx.count("ase:not-shown-exotic-values")
+    bad, info = oracle_roundtrip(aj, fract, with_ase=show_ase, obj=obj)
     if "block" in info:
         bad += oracle_cellpar_strings(aj, info["block"])
     if "in_cell" in info:
@@ -1047,13 +1168,13 @@ def judge_state(ctx, inp, aj, fract, ops, pending, oracle_only, obj=None, where=
         return
     w1, e = attempt(lambda: write(a, fract))
     if e is not None:
-        ops.append({"op": "cif_save", "a": aj, "fract": fract, "env": env_for(aj, None)})
+        ops.append({"op": "cif_save", "a": model_view(aj), "fract": fract, "env": env_for(aj, None)})
         pending.append(("cif_save", {"err": save_err(e)}, None))
         return
     block, e = attempt(lambda: read_block(w1))
     if e is not None:
         return
-    ops.append({"op": "cif_save", "a": aj, "fract": fract, "env": env_for(aj, block)})
+    ops.append({"op": "cif_save", "a": model_view(aj), "fract": fract, "env": env_for(aj, block)})
     pending.append(("cif_save", {"ok": canon_block(block)}, exact_arith(aj) or not (fract and aj["cell"] is not None)))
     # tie 2: what the code read from that file against the model's loadCif on that block
     b, e = attempt(lambda: read(w1))
@@ -1156,6 +1277,8 @@ def check_case(ctx, inp, ops, pending, oracle_only=False):
     elif op == "handwritten":
         ctx.count("hand:" + inp["kind"])
         ctx.count("hand-numbers:" + inp.get("style", "plain"))
+        if "_atom_site_charge" in inp["text"]:
+            ctx.count("hand:charge-column")
         bad, bj = oracle_handwritten(inp)
         for what, tag in bad:
             ctx.fail(what, inp, observed=bj and bj["atoms"], required="C15 reading", tags=[tag] if tag else [])
@@ -1167,6 +1290,9 @@ def check_case(ctx, inp, ops, pending, oracle_only=False):
         if e2 is None:
             ops.append({"op": "cif_load", "block": blk, "cell": impl["ok"]["cell"] if e is None else None})
             pending.append(("cif_load", impl, None))
+    elif op == "charges":
+        for what, tag in oracle_special_charges(inp):
+            ctx.fail(what, inp, observed=None, required="charges are reproduced", tags=[])
     elif op == "p1":
         ctx.count("p1:" + ("accept" if inp["accept"] else "reject"))
         for what, tag in oracle_p1(inp):
@@ -1207,6 +1333,7 @@ def all_cases(ctx):
     for s in ["1.234(5)", "((1)2)", "(12(3)x()(4", "0.5(12)(3)", "(7)", "()", "1(2", "1)2("]:
         cases.append({"op": "strip", "s": s})
     cases.append(tiny_negative_case())
+    cases.append(special_charge_case())
     for _ in range(ctx.n(30, 400)):
         cases.append(gen_history(rng))
     return corpus_cases() + cases + known_cases(ctx) + large_cases(ctx)
